@@ -1255,6 +1255,9 @@ def solve_sylvester_direct(
     def solve_sylvester(Y: np.ndarray, index: tuple[int, ...]) -> np.ndarray:
         if Y is zero:
             return zero
+        if index[0] == index[1] == len(eigenvalues):
+            # Nothing is eliminated inside the implicit block.
+            return zero
         if index[0] < len(eigenvalues) and index[1] < len(eigenvalues):
             return explicit_part(Y, index)
 
